@@ -122,5 +122,31 @@ def main(argv):
     return 1
 
 
+def supervise(argv):
+    """run the check in a child process: the external solver (ECOS, a C extension) can take the whole interpreter down on a
+    degenerate problem.  A child killed by a signal is re-run with a derived seed (twice); if the solver process dies every time the
+    property is no longer shown to hold on this tree and that is reported as a violation without a failing input."""
+    import subprocess
+    if len(argv) < 3 or argv[1] == 'build' or '--replay' in argv or os.environ.get('VERIF_CHILD') == '1':
+        return main(argv)
+    seed = int(os.environ.get('VERIF_SEED', '20260929'))
+    crashes = []
+    for attempt in range(3):
+        env = dict(os.environ, VERIF_CHILD='1', VERIF_SEED=str(seed + 7919 * attempt))
+        rc = subprocess.call([sys.executable, '-m', 'harness.main'] + argv[1:], env=env)
+        if 0 <= rc < 128:
+            if crashes and rc == 0:
+                print('NOTE property=%s: %d earlier attempt(s) ended with the solver process killed (%s); re-run with a derived seed' % (argv[1], len(crashes), crashes))
+            return rc
+        crashes.append('seed %d: exit status %d' % (seed + 7919 * attempt, rc))
+    pid = argv[1]
+    path = os.path.join(vlib.VERIF, 'replay', '%s-crash-%d.json' % (pid, seed))
+    os.makedirs(os.path.dirname(path), exist_ok=True)
+    json.dump({'property': pid, 'kind': 'harness', 'detail': 'the check process was killed by a signal on every attempt (%s): the correspondence '
+               'for %s could not be evaluated on this tree' % (crashes, pid), 'input': None, 'failing_input_found': False, 'seed': seed}, open(path, 'w'), indent=1)
+    print('VIOLATION property=%s replay=%s no-failing-input-found' % (pid, path))
+    return 1
+
+
 if __name__ == '__main__':
-    sys.exit(main(sys.argv))
+    sys.exit(supervise(sys.argv))
